@@ -278,11 +278,14 @@ def gmx2_world(frozen_bar=1, kind="mild", impact="small", n=3, single_token=Fals
 
 
 # ---------------------------------------------------------------------------------------------------------
-def aave_path_world(n=5):
+def aave_path_world(n=5, late_token=None):
     """Aave with moving prices (a liquidating bar) and per-token index growth: for the bar-by-bar properties (C01, C02, C05)."""
     from . import aave
 
     frames = {k: _raw(f"aave.{k}", v) for k, v in aave.make_data(n).items()}
+    if late_token:
+        # a token that was listed later: its history starts two bars after the others' (nothing is known about it before)
+        frames[late_token] = frames[late_token].iloc[2:]
     prices = _raw("prices.raw", aave.price_frame(n, {"WETH": [1, "1.01", "0.58", "0.6", "0.9"][:n], "DAI": [1, "1.002", 1, "0.998", 1][:n],
                                   "WBTC": [1, "0.97", "1.04", 1, 1][:n]}))
 
@@ -297,7 +300,7 @@ def aave_path_world(n=5):
              ("aave.supply[USDT,part,N]", "aave.supply[WETH,part,C]", "aave.borrow[USDC,near]"))
     fr = {f"aave.{k}": v for k, v in frames.items()}
     fr["prices"] = prices
-    return World("aave(path)", build, roots, fr)
+    return World("aave(path)" if not late_token else "aave(path,late-listing)", build, roots, fr)
 
 
 def uni_aave_world(n=4):
